@@ -2462,7 +2462,7 @@ func (c *Conn) negotiateVersionClient(ctx context.Context) ([]*dtlsflight.Packet
 	interval := c.handshakeConfig.InitialRetransmitInterval
 	for {
 		readCtx, cancel := context.WithTimeout(ctx, interval)
-		err := c.readAndBufferNoFSM(readCtx)
+		newData, err := c.readNewDataNoFSM(readCtx)
 		timedOut := readCtx.Err() != nil && ctx.Err() == nil
 		cancel()
 		if err != nil && timedOut {
@@ -2480,6 +2480,11 @@ func (c *Conn) negotiateVersionClient(ctx context.Context) ([]*dtlsflight.Packet
 		}
 		if err != nil {
 			return nil, err
+		}
+		if newData {
+			// New, not retransmitted, data restores the initial interval, as in
+			// the state machines.
+			interval = c.handshakeConfig.InitialRetransmitInterval
 		}
 		if ok, err := c.pickVersionFromServerResponse(); err != nil {
 			var negotiationAlert *alert.Alert
@@ -2717,9 +2722,22 @@ func (c *Conn) primeHandshakeRecv(ctx context.Context) {
 // version negotiation phase. It reads and processes a datagram, but does not
 // signal an FSM (there is none yet) or wait for its Done channel.
 func (c *Conn) readAndBufferNoFSM(ctx context.Context) error {
-	_, err := c.readAndProcessDatagram(ctx)
+	_, err := c.readNewDataNoFSM(ctx)
 
 	return err
+}
+
+// readNewDataNoFSM reads one datagram while no state machine runs yet. It
+// reports whether the datagram carried handshake data that was not seen before.
+func (c *Conn) readNewDataNoFSM(ctx context.Context) (bool, error) {
+	summary, err := c.readAndProcessDatagram(ctx)
+	if err != nil && c.classifyReadLoopError(err) == readLoopContinue {
+		// Decode error must be silently discarded [RFC6347 Section-4.1.2.7],
+		// here as in the read loop of the state machines.
+		return false, nil
+	}
+
+	return summary.containsHandshake && !summary.retransmit, err
 }
 
 func (c *Conn) classifyReadLoopError(err error) readLoopErrorAction {
